@@ -96,7 +96,11 @@ func (u *TxUniverse) TxRel(t int64, body []int64, relevant bool) *wire.MsgTx {
 	}
 	other := make([]byte, 20)
 	binary.LittleEndian.PutUint64(other, uint64(t)+7)
-	if relevant {
+	// five-output transactions pay the subscribed hash in their LAST output, behind an output with raw data that is
+	// not valid push encoding (OP_FALSE OP_RETURN PUSHDATA1 with a length past the end): a script that does not parse
+	// ends the scan of that script only
+	late := u.VarOuts && nouts(t) == 5
+	if relevant && !late {
 		tx.AddTxOut(wire.NewTxOut(uint64(t*10), p2pkh(SubscribedData)))
 	} else {
 		tx.AddTxOut(wire.NewTxOut(uint64(t*10), p2pkh(other)))
@@ -106,8 +110,13 @@ func (u *TxUniverse) TxRel(t int64, body []int64, relevant bool) *wire.MsgTx {
 	marker[0], marker[1], marker[2] = 0x00, 0x6a, 0x08
 	binary.LittleEndian.PutUint64(marker[3:], uint64(t))
 	tx.AddTxOut(wire.NewTxOut(uint64(t*10+2), marker))
-	for k := int64(3); u.VarOuts && k < nouts(t); k++ {
-		tx.AddTxOut(wire.NewTxOut(uint64(t*10+k), p2pkh(other)))
+	if late {
+		tx.AddTxOut(wire.NewTxOut(uint64(t*10+3), []byte{0x00, 0x6a, 0x4c, 0x50, 'a', 'b', 'c'}))
+		if relevant {
+			tx.AddTxOut(wire.NewTxOut(uint64(t*10+4), p2pkh(SubscribedData)))
+		} else {
+			tx.AddTxOut(wire.NewTxOut(uint64(t*10+4), p2pkh(other)))
+		}
 	}
 	u.txs[t] = tx
 	h := *tx.TxHash()
